@@ -19,6 +19,8 @@ V(t) ==
        \cup (IF t.alive = 1 /\ t.probe # "" THEN {<<l, "NotServing">>} ELSE {})
        \cup (IF t.restart = 1 THEN {} ELSE {<<l, "PoisonedLog">>})
        \cup (IF t.restart = 1 /\ t.replayprobe # "" THEN {<<l, "ReplayNotServing">>} ELSE {})
+       \* C09: a search over something that is not there fails loudly
+       \cup (IF t.musterr = 1 /\ t.outcome = "ok" THEN {<<l, "SilentSuccess">>} ELSE {})
 Step == /\ l <= Len(Trace) /\ l' = l + 1 /\ viol' = viol \cup V(Trace[l])
 Spec == Init /\ [][Step]_vars
 Report == l = Len(Trace) + 1 => PrintT(<<"VIOL", ToJson([n |-> Len(Trace), v |-> viol])>>)
